@@ -41,6 +41,8 @@ class Recorder:
         self.sim = None
         self.scripts = {}      # agent name -> forced program (replay_run)
         self.cash_soft_err = 0.0
+        self.exec_truth = None       # per session index: withOrderExecution AS CONFIGURED, when nothing configured can stop a market
+        self.cash_unit = CASH_UNIT   # finer for runs on grids below 2^-7 (drive_run.micro_runs)
         self._lg = {}
         self.pending_quiet = {}   # market_id -> (exec switch, running) when an order / cancel was accepted there
 
@@ -76,8 +78,8 @@ class Recorder:
 
     def cash_units(self, x):
         if self.exact:
-            k = round(x / CASH_UNIT)
-            if k * CASH_UNIT != x or abs(k) >= 2 ** 31 - 2:
+            k = round(x / self.cash_unit)
+            if k * self.cash_unit != x or abs(k) >= 2 ** 31 - 2:
                 # a cash amount off the exact grid cannot come from folding exact fills: the trace specification sees a value
                 # no fold produces (and says so), the harness does not fail
                 self.cash_soft_err += 1
@@ -314,9 +316,21 @@ class ProbeMarketMixin:
         REC.book_ev[self.market_id].append(e)
         return e
 
+    def _running_now(self):
+        """whether this market runs: the execution flag of the current session AS CONFIGURED when no configured event can stop
+        a market (then it is a function of the configuration, not of the code under test); the market's own flag otherwise"""
+        tr = REC.exec_truth
+        sess = getattr(REC.sim, "current_session", None)
+        if tr is not None and sess is not None:
+            for i, x in enumerate(REC.sim.sessions):
+                if x is sess and i < len(tr):
+                    return bool(tr[i])
+        return bool(self.is_running)
+
     def _sync_running(self):
-        if bool(self.is_running) != self._seen_running and self.time >= 0 and self.market_id in REC.book_hdr:
-            self._seen_running = bool(self.is_running)
+        now = self._running_now()
+        if now != self._seen_running and self.time >= 0 and self.market_id in REC.book_hdr:
+            self._seen_running = now
             e = {"k": "run", "on": self._seen_running, "lg": [0, 0, 0, 0]}
             e.update(snap_market(self, self._u()))
             REC.book_ev[self.market_id].append(e)
@@ -482,6 +496,11 @@ class ScriptMixin:
         self.p.update(settings.get("script", {}))
         self.forced = REC.scripts.get(self.name)
         self.n_consult = 0
+
+    def __len__(self):
+        # a user-written agent may be a container (of its live orders, say): every other scripted agent is EMPTY, hence falsy -
+        # it is still the owner of its orders and has to be told about them
+        return int(self.agent_id % 2)
 
     def submit_orders(self, markets):
         hft = isinstance(self, HighFrequencyAgent)
@@ -651,6 +670,7 @@ class ProbeEvent(EventABC):
     price of the pending limit order by n ticks (before hooks may alter a pending order)."""
 
     hook_specs, bump, dup, dupreg = [], 0, False, None      # (a runner that asks for the hooks before setup gets none)
+    session_cancel = False
 
     def setup(self, settings, *args, **kwargs):
         super().setup(settings, *args, **kwargs)
@@ -660,6 +680,9 @@ class ProbeEvent(EventABC):
         # C17 "components must be distinct": at time t a user program tries to register a component of an index a second
         # time ([index name, component name, t]); the attempt must be refused and must leave the index as it was
         self.dupreg = settings.get("dupRegister")
+        # C10 "no later than the next session boundary": a rule that clears part of the book at the session switch - the
+        # before-session hook cancels the oldest resting order of every market (records written OUTSIDE any step)
+        self.session_cancel = bool(settings.get("sessionCancel", False))
 
     def hook_registration(self):
         hooks = []
@@ -704,6 +727,12 @@ class ProbeEvent(EventABC):
 
     def hooked_before_session(self, simulator, session):
         self._h("session", True, s=int(session.session_id), t=int(session.session_start_time))
+        if self.session_cancel:
+            for market in simulator.markets:
+                resting = sorted(market.buy_order_book.priority_queue + market.sell_order_book.priority_queue, key=lambda o: o.order_id)
+                if resting:
+                    log = market._cancel_order(cancel=Cancel(order=resting[0]))
+                    simulator.id2agent[resting[0].agent_id].canceled_order(log=log)
 
     def hooked_after_session(self, simulator, session):
         self._h("session", False, s=int(session.session_id), t=int(session.session_start_time + session.iteration_steps - 1))
